@@ -1102,7 +1102,7 @@ Proof.
       * right. replace (1 + Z.of_nat (S m) - 1 - Z.of_nat (S m))%Z with 0%Z by lia. reflexivity.
   - (* split_tuple *)
     intros p r Hr. cbn [lrun] in Hr. destruct (lrun t (0 :: p)) as [pr|] eqn:Epr; [|discriminate].
-    eapply (shared_join_NI p false false pr _ _ r [New (p, KShared)]); [eapply IHt; exact Epr|exact Hr|conc_firsts|conc_seconds| |].
+    eapply (shared_join_NI p false true pr _ _ r [New (p, KShared); RefInc p]); [eapply IHt; exact Epr|exact Hr|conc_firsts|conc_seconds| |].
     + intros k ch Hk. destruct k as [|[|k]]; cbn [nth_error] in Hk; try (destruct k; discriminate);
         injection Hk as <-; repeat split; reflexivity.
     + right. reflexivity.
